@@ -1526,6 +1526,10 @@ def _maybe_bound_expr_hazard(group, depth=0):
             maybe = visible_vars(group) - certain_vars(group)
             if all_vars(e["e"]) & maybe:
                 return True
+        if k == "minus" and depth > 0:      # MINUS compares on the variables its left side *may* bind
+            maybe = visible_vars(group) - certain_vars(group)
+            if all_vars(e["g"]) & maybe:
+                return True
         subs = [e["g"]] if k in ("grp", "optional", "minus", "graph") else (e["gs"] if k == "union" else [])
         if k == "sub":
             subs = [e["q"]["where"]]
@@ -1549,7 +1553,7 @@ def _exists_groups(ex):
 
 
 def _m_maybe_bound_filter(case, result):
-    """C15-K3: a FILTER / BIND of a nested group uses a variable its group binds only optionally and an
+    """C15-K3: a FILTER / BIND / MINUS of a nested group uses a variable its group binds only optionally and an
     enclosing join has already bound: pushed down, the expression sees the outer value (forget() keeps every
     variable the group *may* bind); evaluated bottom-up (other operand order) the variable is unbound."""
     case = materialize(case)
